@@ -9,7 +9,7 @@ from collections import deque
 from . import tla
 
 VERIF = '/verif'
-BUILD = os.path.join(VERIF, '.build')
+BUILD = os.environ.get('VERIF_BUILD', os.path.join(VERIF, '.build'))
 SPEC = os.path.join(VERIF, 'spec')
 
 
